@@ -9,7 +9,7 @@ from hypothesis import strategies as st
 
 from vf import cfgref
 
-TERMS = ["a", "b", "c"]
+TERMS = ["a", "b", "c", "d"]
 NTS = ["S", "A", "B", "C"]
 UNDEF = "U"  # a nonterminal without rules (low rate)
 
